@@ -375,28 +375,34 @@ package utreexo
 //@   loop 2: invariant len(rootHashes) == len(p.Roots)
 
 //@ func (m *MapPollard) getRoots() (roots []Hash, positions []uint64)
+//@   lock: R
 //@   requires m.TotalRows <= 63
 //@   pure
 //@   ensures len(roots) == len(positions)
 //@   loop 1: invariant len(roots) == iter_1
 
 //@ func (m *MapPollard) getStump() (res Stump)
+//@   lock: R
 //@   requires m.TotalRows <= 63
 //@   pure
 //@   ensures res.NumLeaves == m.NumLeaves
 
 //@ func (m *MapPollard) verify(delHashes []Hash, proof Proof, remember bool) (err error)
+//@   lock: W
 //@   requires m.TotalRows <= 63 && m.NumLeaves <= pow2(63)
 
 //@ func (m *MapPollard) Verify(delHashes []Hash, proof Proof, remember bool) (err error)
+//@   acquires W
 //@   requires m.TotalRows <= 63 && m.NumLeaves <= pow2(63)
 
 //@ func (m *MapPollard) trimProofPos(proofPos []uint64, numLeaves uint64) (res []uint64)
+//@   lock: none
 //@   ensures len(res) <= len(proofPos)
 //@   loop 1: invariant 0 <= i && i <= len(proofPos)
 //@   loop 1: decreases len(proofPos) - i
 
 //@ func (m *MapPollard) VerifyPartialProof(origTargets []uint64, delHashes []Hash, proofHashes []Hash, remember bool) (err error)
+//@   acquires W
 //@   requires m.TotalRows <= 63 && m.NumLeaves <= pow2(63)
 //@   loop 1: invariant 0 <= proofHashIdx
 
@@ -407,6 +413,7 @@ package utreexo
 // ---------------------------------------------------------------------------
 
 //@ func (m *MapPollard) Read(r io.Reader) (n int, err error)
+//@   acquires W
 //@   ensures err == nil ==> allFull
 //@   ensures err == nil ==> n == ioBytes
 //@   loop 1: invariant allFull && totalBytes == ioBytes && 0 <= i
@@ -419,3 +426,55 @@ package utreexo
 //@ func (p *Pollard) readOne(n *polNode, r io.Reader) (cnt int64, err error)
 //@   ensures err == nil ==> allFull
 //@   ensures len(p.Roots) == old(len(p.Roots))
+
+// ---------------------------------------------------------------------------
+// C12: lock-mode contracts of *MapPollard (checked by /verif/perm lock on every CFG path).
+//   guarded by rwLock: NumLeaves, TotalRows, Nodes, CachedLeaves ; immutable: rwLock, Full
+//   `acquires X`: called with no lock held, takes the lock in mode X once, releases it at every return
+//   `lock: X`   : helper, the caller holds at least mode X, never acquires
+// Contracts not listed here are inferred (least mode) and reported as inferred.
+// ---------------------------------------------------------------------------
+
+//@ func (m *MapPollard) Modify(adds []Leaf, delHashes []Hash, proof Proof) (err error)
+//@   acquires W
+//@ func (m *MapPollard) Undo(numAdds uint64, proof Proof, hashes []Hash, origPrevRoots []Hash) (err error)
+//@   acquires W
+//@   bounded-write proof.Proof
+//@ func (m *MapPollard) Ingest(delHashes []Hash, proof Proof) (err error)
+//@   acquires W
+//@ func (m *MapPollard) Prune(hashes []Hash) (err error)
+//@   acquires W
+//@ func (m *MapPollard) Prove(proveHashes []Hash) (p Proof, err error)
+//@   acquires R
+//@ func (m *MapPollard) GetMissingPositions(origTargets []uint64) (res []uint64)
+//@   acquires R
+//@ func (m *MapPollard) GetRoots() (res []Hash)
+//@   acquires R
+//@ func (m *MapPollard) GetHash(pos uint64) (res Hash)
+//@   acquires R
+//@ func (m *MapPollard) GetLeafPosition(hash Hash) (pos uint64, found bool)
+//@   acquires R
+//@ func (m *MapPollard) GetNumLeaves() (res uint64)
+//@   acquires R
+//@ func (m *MapPollard) GetTreeRows() (res uint8)
+//@   acquires R
+//@ func (m *MapPollard) GetStump() (res Stump)
+//@   acquires R
+//@ func (m *MapPollard) GetLeafHashPositions(hashes []Hash) (res []uint64)
+//@   acquires R
+//@ func (m *MapPollard) Write(w io.Writer) (n int, err error)
+//@   acquires R
+//@ func (m *MapPollard) remove(proof Proof, delHashes []Hash) (err error)
+//@   lock: W
+//@ func (m *MapPollard) add(adds []Leaf) (err error)
+//@   lock: W
+//@ func (m *MapPollard) undoAdd(numAdds uint64, origTargets []uint64, origPrevRoots []Hash) (err error)
+//@   lock: W
+//@ func (m *MapPollard) undoDeletion(proof Proof, hashes []Hash) (err error)
+//@   lock: W
+//@ func (m *MapPollard) ingest(delHashes []Hash, proof Proof) (err error)
+//@   lock: W
+//@ func (m *MapPollard) cached(hashes []Hash) (res bool)
+//@   lock: R
+//@ func (m *MapPollard) getLeafHashPosition(hash Hash) (pos uint64, found bool)
+//@   lock: R
